@@ -64,7 +64,7 @@ __asm__ (
 );
 
 static int shard, nshards, thorough;
-static long g_idx, st_programs, st_calls, st_viol, st_compiled;
+static long g_idx, st_programs, st_calls, st_memchecks, st_viol, st_compiled;
 static VTarget targets[4];
 static int ntargets;
 static char *seen[300];
@@ -116,7 +116,7 @@ static void explore (OrcProgram * p, const char *text, long idx)
         if (!thorough && ni != 4 && seed != 0 && seed != 15) continue;
         for (place = 0; place < 2; place++) {
           VRunCfg c;
-          VArena A;
+          VArena A, R;
           OrcExecutor *ex;
           Regs in, out;
           char msg[300];
@@ -160,6 +160,17 @@ static void explore (OrcProgram * p, const char *text, long idx)
           if ((out.mxcsr & 0xffc0) != (in.mxcsr & 0xffc0)) BAD ("mxcsr", "MXCSR control bits 0x%04x on entry, 0x%04x on return (n=%d)", in.mxcsr & 0xffc0, out.mxcsr & 0xffc0, c.n);
           if (out.rflags & (1 << 10)) BAD ("direction-flag", "direction flag set on return");
           { unsigned short tag; memcpy (&tag, out.fenv + 8, 2); if (tag != 0xffff) BAD ("x87-mmx-state", "x87/MMX register state not empty on return (tag word 0x%04x, n=%d)", tag, c.n); }
+          /* memory: outside elements 0..n-1 of the destination rows, the array mappings (leading/trailing bytes, row
+           * gaps, sources) are as they were filled; the executor entered with the scratch fields an earlier, longer
+           * call would have left */
+          {
+            char m2[240];
+            vr_arena_alloc (&R, p, &c);
+            vr_arena_fill (&R, &c);
+            if (vr_untouched (&A, &R, &c, p, m2, sizeof (m2))) BAD ("memory", "%s; n=%d m=%d first-destination offset %d", m2, c.n, c.m, c.off[0]);
+            vr_arena_free (&R);
+            st_memchecks++;
+          }
           vr_arena_free (&A);
         }
       }
@@ -212,7 +223,7 @@ static void worker (long start, void *user)
       for (i = 0; i < np; i++) { long idx = g_idx++; if (idx >= start && (idx % nshards) == shard) explore (progs[i], NULL, idx); }
     }
   }
-  v_out ("{\"t\":\"stat\",\"programs\":%ld,\"compiled\":%ld,\"calls\":%ld,\"violations_raw\":%ld}", st_programs, st_compiled, st_calls, st_viol);
+  v_out ("{\"t\":\"stat\",\"programs\":%ld,\"compiled\":%ld,\"calls\":%ld,\"memory_checks\":%ld,\"violations_raw\":%ld}", st_programs, st_compiled, st_calls, st_memchecks, st_viol);
   v_out ("{\"t\":\"max\",\"space_size\":%ld}", g_idx);
 }
 
